@@ -22,6 +22,10 @@
      ECancelReq d               .cancel() on the Deferred of direct request d
      EOp kind all               kind 0: _send_broker_unaware_request(_next_id(), <metadata request>)
                                 kind 1: load_metadata_for_topics( *topics ), all = no topic given
+                                kind 2: _load_topic_partitions("t0") (client.py:396-466): like kind 0 per attempt; a
+                                response naming a topic in error / without partitions (abstract topic ids >= 4) makes
+                                it wait retry_policy(attempt) - a deferLater registered with _cancel_on_close - and try
+                                again with a fresh correlation id; the op's kind counts the attempts: 2 + 4*(attempt-1)
      EUpdate brokers remove     _update_brokers(brokers, remove)
      EClose                     close()
      EReset                     reset_all_metadata()
@@ -81,7 +85,8 @@ Inductive phase :=
 | PKnown (rest : list Z) (i h : nat)        (* waiting for request h of broker client i; nodes still to try *)
 | PBootConn (a : nat) (rest : list Z)       (* waiting for bootstrap attempt a; hosts still to try *)
 | PBootReq (a t : nat) (rest : list Z)      (* request written on bootstrap connection a, addTimeout call t *)
-| PDone.
+| PDone
+| PWait (t : nat).                          (* _load_topic_partitions: in its retry back-off, deferLater call t (client.py:462) *)
 
 Record op := mkOp { o_kind : Z; o_all : bool; o_rid : Z; o_phase : phase }.
 
@@ -91,7 +96,7 @@ Record op := mkOp { o_kind : Z; o_all : bool; o_rid : Z; o_phase : phase }.
 Inductive bstat := KAttempt | KLive (pend : bool) | KDead.
 
 (* who asked for the t-th reactor.callLater *)
-Inductive timer_of := TReq (i h : nat) | TBackoff (i : nat) | TBoot (p a : nat).
+Inductive timer_of := TReq (i h : nat) | TBackoff (i : nat) | TBoot (p a : nat) | TWait (p : nat).
 
 Record cstate := mkC {
   c_cfg : cfg;
@@ -124,7 +129,8 @@ Inductive res :=
 | RKCancelled              (* 7: afkak.common.CancelledError *)
 | RTrue                    (* 8: True  (load_metadata_for_topics) *)
 | ROpNone                  (* 9: None  (load_metadata_for_topics "ate" a cancellation) *)
-| RKeyError.               (* 10: KeyError *)
+| RKeyError                (* 10: KeyError *)
+| RSnap.                   (* 11: a dict (the partition snapshot of _load_topic_partitions) *)
 
 Inductive output :=
 | OConnect (i : nat) (addr : Z) | OWrite (i : nat) (rid : Z) | OLose (i : nat) | OCancelAttempt (i : nat)
@@ -180,6 +186,9 @@ Definition phase_of (C : cstate) (p : nat) : phase :=
   match nth_error (c_ops C) p with Some o => o_phase o | None => PDone end.
 Definition set_phase (C : cstate) (p : nat) (ph : phase) : cstate :=
   with_ops C (nth_upd (c_ops C) p (fun o => mkOp (o_kind o) (o_all o) (o_rid o) ph)).
+(* the next attempt of _load_topic_partitions: attempt += 1, a fresh correlation id *)
+Definition restart_op (C : cstate) (p : nat) (rid : Z) : cstate :=
+  with_ops C (nth_upd (c_ops C) p (fun o => mkOp (o_kind o + 4) (o_all o) rid PDone)).
 
 (* ---------------------------------------------------------------- small dictionaries *)
 Fixpoint assoc {B} (k : Z) (l : list (Z * B)) : option B :=
@@ -506,6 +515,13 @@ Definition merge (C : cstate) (payload : list Z) (all : bool) : cstate * list ou
       (with_topics C1 (fold_right zinsert (c_topics C1) topics), o1)
   end.
 
+(* _load_topic_partitions *)
+Definition is_ltp (kind : Z) : bool := kind mod 4 =? 2.
+(* some topic of the response is in error or has no partitions: abstract topic ids >= 4 (the loop at client.py:441 runs
+   over the topics of the RESPONSE - the name is rebound at 436) *)
+Definition missing (payload : list Z) : bool :=
+  match parse_meta payload with Some (_, topics) => existsb (fun t => 4 <=? t) topics | None => false end.
+
 (* level 1: operation p obtained its response (from a known broker or from a bootstrap host) *)
 Definition succ1 (C : cstate) (p : nat) (f : list Z) : cstate * list output :=
   match nth_error (c_ops C) p with
@@ -515,6 +531,13 @@ Definition succ1 (C : cstate) (p : nat) (f : list Z) : cstate * list output :=
       if o_kind o =? 1 then
         if closing C1 then (C1, [OErr 31])
         else let (C2, o2) := merge C1 (drop 4 f) (o_all o) in (C2, o2 ++ [OOp p RTrue])   (* _handleMetadataResponse  503-506 *)
+      else if is_ltp (o_kind o) then                                            (* _load_topic_partitions  436-466 *)
+        if closing C1 then (C1, [OErr 31])
+        else let (C2, o2) := merge C1 (drop 4 f) false in
+             if missing (drop 4 f) then
+               let (C3, t) := new_timer C2 (TWait p) in                         (* deferLater(reactor, retry_policy(attempt), ..)  452-462 *)
+               (set_phase C3 p (PWait t), o2 ++ [OSched t 1 (o_kind o / 4 + 1)])
+             else (C2, o2 ++ [OOp p RSnap])
       else (C1, [OOp p (RSucc f)])
   end.
 
@@ -524,7 +547,7 @@ Definition ev_bc := bc_event succ1.
 Definition count_timers (C : cstate) : nat :=
   fold_right (fun b n => (length (filter (fun q => match q_timer q with Some _ => true | None => false end) (b_reqs b))
                           + (match b_timer b with Some _ => 1 | None => 0 end) + n)%nat) 0%nat (c_bcs C)
-  + length (filter (fun o => match o_phase o with PBootReq _ _ _ => true | _ => false end) (c_ops C)).
+  + length (filter (fun o => match o_phase o with PBootReq _ _ _ | PWait _ => true | _ => false end) (c_ops C)).
 
 (* ---------------------------------------------------------------- bootstrap connections *)
 (* close(): "for d in list(self._bootstrap_ds): d.cancel()", client.py:388-389 *)
@@ -538,6 +561,8 @@ Fixpoint cancel_boots (C : cstate) (n : nat) (p : nat) : cstate * list output :=
             let (C', o') := boot_next (set_boot C a KDead) p rest in (C', OBootCancel a :: o')  (* except Exception: continue *)
         | Some (mkOp _ _ _ (PBootReq a t rest)) =>
             let (C', o') := boot_next C p rest in (C', OCancelTimer t :: OBootLose a :: o')      (* addTimeout's cleanup; finally: loseConnection *)
+        | Some (mkOp _ _ _ (PWait t)) =>                                        (* the deferLater is cancelled: CancelledError into the generator *)
+            let (C', o') := op_fail C p RCancelled in (C', OCancelTimer t :: o')
         | _ => (C, [])
         end in
       let (C2, o2) := cancel_boots C1 n' (S p) in (C2, o1 ++ o2)
@@ -621,6 +646,22 @@ Definition step (C : cstate) (e : event) : cstate * list output :=
           | PBootReq a' t' rest =>
               if Nat.eqb a a' && Nat.eqb t t' then
                 let (C1, o1) := boot_next C p rest in (C1, OBootLose a :: o1)
+              else (C, [])
+          | _ => (C, [])
+          end
+      | Some (TWait p) =>                                                       (* the back-off of _load_topic_partitions is over: next attempt *)
+          match phase_of C p with
+          | PWait t' =>
+              if Nat.eqb t t' then
+                let (C1, rid) := next_id C in                                   (* 431 *)
+                let C2 := restart_op C1 p rid in
+                match c_clients C2 with
+                | None => op_fail C2 p RClosed
+                | Some cl =>
+                    let ids := shuf (g_mode (c_cfg C2)) (map fst (c_brokers C2)) in
+                    let conn := fun n => match assoc n cl with Some i => bc_connected C2 i | None => false end in
+                    op_known C2 p rid (filter conn ids ++ filter (fun n => negb (conn n)) ids)
+                end
               else (C, [])
           | _ => (C, [])
           end
@@ -748,7 +789,7 @@ Definition enc_res (r : res) : list Z :=
   match r with
   | RSucc f => 1 :: lpz (drop 4 f)
   | RNone => [2] | RCancelled => [3] | RClosed => [4] | RTimedOut => [5] | RUnavail => [6]
-  | RKCancelled => [7] | RTrue => [8] | ROpNone => [9] | RKeyError => [10]
+  | RKCancelled => [7] | RTrue => [8] | ROpNone => [9] | RKeyError => [10] | RSnap => [11]
   end.
 
 (* (actor class, actor id, encoding) *)
